@@ -1917,3 +1917,238 @@ Section DetectBlocks.
     - specialize (Hc eq_refl). lia.
   Qed.
 End DetectBlocks.
+
+(* ------------------------------------------------------------------------- *)
+(** * 8. The boolean checker of [Healthy] is sound                            *)
+(* ------------------------------------------------------------------------- *)
+
+Lemma nodup_dirs_sound l : nodup_dirs l = true -> NoDup l.
+Proof.
+  induction l as [|x l IH]; cbn [nodup_dirs]; [constructor|].
+  rewrite andb_true_iff, negb_true_iff. intros [H1 H2]. constructor; [|auto].
+  intros Hin. assert (E : existsb (dpath_eqb x) l = true).
+  { apply existsb_exists. exists x. split; [exact Hin|]. destruct (dpath_eqb_spec x x); congruence. }
+  congruence.
+Qed.
+
+Lemma count_from_In {A} (l : list A) : forall i h, In h (count_from l i) <-> i <= h < i + N.of_nat (length l).
+Proof.
+  induction l as [|x l IH]; intros i h; cbn [count_from length In]; [lia|].
+  rewrite IH. lia.
+Qed.
+
+Section Checker.
+  Variable pre : bytes -> N.
+
+  Lemma wfdirs_b_sound a : wfdirs_b pre a = true -> WFdirs pre a.
+  Proof.
+    unfold wfdirs_b. rewrite !andb_true_iff. intros [[[[[H1 H2] H3] H4] H5] H6].
+    rewrite forallb_forall in H4, H5, H6.
+    split; [apply nodup_dirs_sound; exact H1|].
+    split; [apply has_dir_In; exact H2|]. split; [apply has_dir_In; exact H3|].
+    split; [|split].
+    - intros f x Hin. apply has_dir_In. apply (H4 (f, x) Hin).
+    - intros d p Hd Hp. specialize (H5 d Hd). rewrite Hp in H5. apply has_dir_In. exact H5.
+    - intros b Hb. apply has_dir_In. apply (H6 (DBand b) Hb).
+  Qed.
+
+  Lemma band_hunk_files_In a b h : get a (PHunk b h) <> None -> In h (band_hunk_files a b).
+  Proof.
+    intros Hg. apply get_In_keys in Hg. apply in_map_iff in Hg. destruct Hg as [p [E Hp]].
+    unfold band_hunk_files. apply in_flat_map. exists p. split; [exact Hp|]. rewrite E, N.eqb_refl. left. reflexivity.
+  Qed.
+
+  Lemma band_healthy_b_sound a b : band_healthy_b a b = true -> BandHealthy a b.
+  Proof.
+    unfold band_healthy_b. rewrite !andb_true_iff. intros [[[H1 H2] H3] H4].
+    rewrite forallb_forall in H2, H3.
+    split.
+    - destruct (get a (PHead b)) as [[[|[| | | |]| | |]| |]|]; try discriminate. reflexivity.
+    - exists (N.of_nat (length (band_hunk_files a b))). split; [|split].
+      + intros h Hg. apply N.ltb_lt. apply H2. apply band_hunk_files_In. exact Hg.
+      + intros h Hh. assert (Hin : In h (count_from (band_hunk_files a b) 0)) by (apply count_from_In; lia).
+        specialize (H3 h Hin). destruct (get a (PHunk b h)) as [[[| | |es|]| |]|]; try discriminate.
+        exists es. reflexivity.
+      + destruct (get a (PTail b)) as [[[| |[c|]| |]| |]|]; try discriminate; [|left; reflexivity].
+        apply N.eqb_eq in H4. subst c. right. reflexivity.
+  Qed.
+
+  Theorem healthy_b_sound a : healthy_b pre a = true -> Healthy pre a.
+  Proof.
+    unfold healthy_b. rewrite !andb_true_iff. intros [[[H1 H2] H3] H4].
+    split; [apply wfdirs_b_sound; exact H1|]. split; [apply ainv_b_sound; exact H2|].
+    split.
+    - destruct (get a PHeader) as [[[| | | |]| |]|]; try discriminate. reflexivity.
+    - intros b Hb. rewrite forallb_forall in H4. apply band_healthy_b_sound. apply (H4 (DBand b) Hb).
+  Qed.
+End Checker.
+
+(* ------------------------------------------------------------------------- *)
+(** * 9. Damage to one file of a healthy archive                              *)
+(* ------------------------------------------------------------------------- *)
+
+Lemma damaged_inv a f a' :
+  damaged a f a' ->
+  get a f <> None /\ dirs a' = dirs a /\ (forall g, g <> f -> get a' g = get a g)
+  /\ (get a' f = None \/ exists x, get a' f = Some x /\ bad_content f x).
+Proof.
+  intros [Hex | x Hex Hbad]; (split; [exact Hex|]).
+  - split; [reflexivity|]. split.
+    + intros g Hg. unfold get, remove_path. cbn [files]. rewrite lookup_remove_file.
+      destruct (fpath_eqb_spec g f); [contradiction | reflexivity].
+    + left. unfold get, remove_path. cbn [files]. rewrite lookup_remove_file, fpath_eqb_refl. reflexivity.
+  - unfold replace_path. destruct (get a f) eqn:G; [|congruence]. split; [reflexivity|]. split.
+    + intros g Hg. unfold get. cbn [files]. rewrite lookup_set_file.
+      destruct (fpath_eqb_spec g f); [contradiction | reflexivity].
+    + right. exists x. split; [|exact Hbad]. unfold get. cbn [files].
+      rewrite lookup_set_file, fpath_eqb_refl. reflexivity.
+Qed.
+
+Section Damage.
+  Variable pre : bytes -> N.
+
+  Lemma hunk_dirs a b h :
+    Healthy pre a ->
+    get a (PHunk b h) <> None -> In (DHunkSub b (h / HUNKS_PER_SUBDIR)) (dirs a) /\ In (DBand b) (dirs a).
+  Proof.
+    intros HH Hg. pose proof (file_parent_dir' pre a (Healthy_Readable pre a HH) _ Hg) as Hs. cbn [parent_f] in Hs.
+    split; [exact Hs|]. pose proof HH as HH0; destruct HH0 as ((_ & _ & _ & _ & Hdp & _) & _).
+    apply (Hdp (DIndex b)); [|reflexivity]. apply (Hdp _ _ Hs). reflexivity.
+  Qed.
+
+  Lemma damaged_header a f a' :
+    Healthy pre a -> damaged a f a' -> f <> PHeader -> get a' PHeader = Some (Good PlJson) /\ In DRoot (dirs a') /\ In DBlocks (dirs a').
+  Proof.
+    intros HH HD Hf. destruct (damaged_inv _ _ _ HD) as (_ & Hd & Ho & _).
+    pose proof HH as HH0; destruct HH0 as ((_ & HRoot & HBl & _) & _ & Hh & _).
+    rewrite Hd, Ho by congruence. auto.
+  Qed.
+
+  (** C09 / C10: what validate reports after ONE file of a healthy archive is lost or
+      damaged.  Detected: a band head (lost or undecodable); an index hunk that is
+      undecodable; an index hunk that is lost from a band with a tail, or below another
+      hunk of its band; a block named by a file entry, when lost (also without reading the
+      blocks), zero-length, undecodable or altered (when the blocks are read). *)
+  Theorem validate_detects_damage a f a' skip hint :
+    Healthy pre a -> damaged a f a' ->
+    match f with
+    | PHead b => True
+    | PHunk b h => get a' f <> None \/ get a (PTail b) <> None \/ (exists j, h < j /\ get a (PHunk b j) <> None)
+    | PBlock c => (exists b h, names_block a b h c) /\ (skip = false \/ get a' f = None)
+    | _ => False
+    end ->
+    1 <= v_errors (validate_pure pre a' skip hint).
+  Proof.
+    intros HH HD. pose proof (Healthy_Readable pre a HH) as HR.
+    destruct (damaged_inv _ _ _ HD) as (Hex & Hd & Ho & Hs).
+    destruct f as [| |b|b|b h|c]; try contradiction.
+    - (* band head *)
+      intros _. destruct (damaged_header _ _ _ HH HD) as (Hh & HRt & _); [discriminate|].
+      apply (validate_detects_missing_head pre a' skip hint b); auto.
+      + rewrite Hd. apply (file_parent_dir' pre a HR (PHead b) Hex).
+      + unfold band_opens, rd. destruct Hs as [-> | [x [-> Hb]]]; [reflexivity|].
+        destruct Hb as [-> | [-> | []]]; reflexivity.
+    - (* index hunk *)
+      intros Hc. destruct (damaged_header _ _ _ HH HD) as (Hh & HRt & _); [discriminate|].
+      destruct (hunk_dirs a b h HH Hex) as [Hsub Hb].
+      destruct Hs as [Hnone | [x [Hx Hb']]].
+      + destruct Hc as [Hc | [Ht | [j [Hj Hgj]]]]; [congruence | |].
+        * pose proof HH as HH0; destruct HH0 as (_ & _ & _ & HB). destruct (HB b Hb) as (_ & n & H1 & _ & [Htl|Htl]); [congruence|].
+          apply (validate_detects_missing_hunk_closed_band pre a' skip hint b n h); auto.
+          -- rewrite Hd; exact Hb.
+          -- rewrite Ho by discriminate. exact Htl.
+        * destruct (hunk_dirs a b j HH Hgj) as [Hsubj _].
+          apply (validate_detects_missing_middle_hunk pre a' skip hint b h j); auto.
+          -- rewrite Hd; exact Hb.
+          -- rewrite Ho; [exact Hgj|]. intros E. inversion E. lia.
+          -- rewrite Hd; exact Hsubj.
+      + apply (validate_detects_bad_hunk pre a' skip hint b h); auto.
+        * rewrite Hd; exact Hb.
+        * rewrite Hd; exact Hsub.
+        * congruence.
+        * intros es. rewrite Hx. destruct Hb' as [-> | [-> | []]]; discriminate.
+    - (* block *)
+      intros [[b [h Hn]] Hskip]. destruct (damaged_header _ _ _ HH HD) as (Hh & HRt & HBl); [discriminate|].
+      assert (Hn' : names_block a' b h c).
+      { destruct Hn as (es & e & ad & G & Hr). exists es, e, ad. rewrite Ho by discriminate. auto. }
+      destruct Hn as (es & e & ad & G & _).
+      destruct (hunk_dirs a b h HH) as [Hsub Hb]; [congruence|].
+      assert (Hgood : good_block a' c = false).
+      { unfold good_block. destruct Hs as [-> | [x [-> Hb']]]; [reflexivity|].
+        destruct Hb' as [-> | [-> | [c' [Hne ->]]]]; try reflexivity.
+        destruct (str_eqb c' c) eqn:E; [apply str_eqb_eq in E; contradiction | reflexivity]. }
+      destruct Hskip as [-> | Hnone].
+      + apply (validate_detects_unreadable_block pre a' hint b h c); auto; rewrite Hd; assumption.
+      + apply (validate_detects_missing_block pre a' skip hint b h c); auto; rewrite Hd; assumption.
+  Qed.
+
+  Corollary damage_reported_by_validate a f a' skip hint :
+    Healthy pre a -> damaged a f a' ->
+    match f with
+    | PHead b => True
+    | PHunk b h => get a' f <> None \/ get a (PTail b) <> None \/ (exists j, h < j /\ get a (PHunk b j) <> None)
+    | PBlock c => (exists b h, names_block a b h c) /\ (skip = false \/ get a' f = None)
+    | _ => False
+    end ->
+    exists tr r, run pre (validate_prog skip hint) a' [] = (tr, a', Done r) /\ 0 < v_errors r.
+  Proof.
+    intros HH HD Hc. destruct (validate_run pre a' skip hint) as [tr E].
+    exists tr, (validate_pure pre a' skip hint). split; [exact E|].
+    pose proof (validate_detects_damage a f a' skip hint HH HD Hc). lia.
+  Qed.
+End Damage.
+
+(* ---- a band tail lost or undecodable: nothing to report (the band reads as open-ended /
+        without a stated count), and nothing is reported ---- *)
+Lemma damaged_FilesND a f a' : FilesND a -> damaged a f a' -> FilesND a'.
+Proof.
+  intros ND [Hex | x Hex Hbad]; unfold FilesND.
+  - cbn [remove_path files]. unfold remove_file.
+    apply (filter_keys_nodup (fun g => negb (fpath_eqb f g))). exact ND.
+  - unfold replace_path. destruct (get a f); [|exact ND]. cbn [files]. apply set_file_nodup. exact ND.
+Qed.
+
+Lemma Readable_tail_change pre a a' :
+  Readable pre a -> dirs a' = dirs a -> FilesND a' ->
+  (forall g, get a' g <> None -> get a g <> None) ->
+  (forall g, (forall b, g <> PTail b) -> get a' g = get a g) ->
+  (forall b, tail_count a' b = tail_count a b \/ tail_count a' b = None) ->
+  Readable pre a'.
+Proof.
+  intros (W & (RI & BW & _) & Hh & HB) Hd ND Hsub Hsame Htail.
+  assert (Hblk : forall c, get a' (PBlock c) = get a (PBlock c)) by (intros c; apply Hsame; discriminate).
+  assert (Hhunk : forall b h, get a' (PHunk b h) = get a (PHunk b h)) by (intros b h; apply Hsame; discriminate).
+  split; [|split; [|split]].
+  - destruct W as (W1 & W2 & W3 & W4 & W5 & W6). unfold WFdirs. rewrite Hd.
+    repeat split; auto. intros g x Hin.
+    assert (Hg : get a g <> None) by (apply Hsub, In_keys_get; apply (in_map fst) in Hin; exact Hin).
+    destruct (get a g) as [y|] eqn:G; [|congruence]. apply (W4 g y). apply get_In_files. exact G.
+  - split; [|split; [|exact ND]].
+    + intros b h es G. rewrite Hhunk in G. eapply Forall_impl; [|exact (RI b h es G)].
+      intros e He. unfold entry_ok in *. eapply Forall_impl; [|exact He].
+      intros ad [H1 H2]. split; [|exact H2]. unfold block_ok in *. rewrite Hblk. exact H1.
+    + intros c x G. rewrite Hblk in G. exact (BW c x G).
+  - rewrite Hsame by discriminate. exact Hh.
+  - intros b Hb. rewrite Hd in Hb. destruct (HB b Hb) as (H0 & n & H1 & H2 & H3).
+    split; [rewrite Hsame by discriminate; exact H0|]. exists n.
+    split; [intros h; rewrite Hhunk; apply H1|]. split; [intros h Hh'; rewrite Hhunk; apply H2; exact Hh'|].
+    destruct (Htail b) as [-> | ->]; auto.
+Qed.
+
+Theorem validate_tail_damage_silent pre a b a' skip hint :
+  Healthy pre a -> damaged a (PTail b) a' ->
+  validate_pure pre a' skip hint = {| v_ok := true; v_errors := 0 |}.
+Proof.
+  intros HH HD. apply validate_pure_readable.
+  destruct (damaged_inv _ _ _ HD) as (Hex & Hd & Ho & Hs).
+  apply (Readable_tail_change pre a a').
+  - apply Healthy_Readable. exact HH.
+  - exact Hd.
+  - eapply damaged_FilesND; [|exact HD]. destruct HH as (_ & (_ & _ & ND) & _). exact ND.
+  - intros g Hg. destruct (fpath_eqb_spec g (PTail b)) as [->|Hne]; [exact Hex | rewrite <- Ho; assumption].
+  - intros g Hg. apply Ho. apply Hg.
+  - intros b'. destruct (N.eq_dec b' b) as [->|Hne].
+    + right. unfold tail_count, rd. destruct Hs as [-> | [x [-> Hb]]]; [reflexivity|].
+      destruct Hb as [-> | [-> | []]]; reflexivity.
+    + left. unfold tail_count, rd. rewrite Ho; [reflexivity|]. intros E. inversion E. contradiction.
+Qed.
